@@ -224,6 +224,13 @@ impl<'a> Cmd<'a> {
     c.env_remove("RUST_LOG");
     c.env_remove("NO_COLOR");
     c.env("TERM", "dumb");
+    // variables that are no business of imdl's: a reproducible-builds clock, a temp directory on another file system, a
+    // malformed width hint (documented as ignored unless it is a number)
+    c.env("SOURCE_DATE_EPOCH", "1");
+    c.env("IMDL_TERM_WIDTH", "wide");
+    if Path::new("/dev/shm").is_dir() {
+      c.env("TMPDIR", "/dev/shm");
+    }
     for k in &self.env_remove {
       c.env_remove(k);
     }
